@@ -55,6 +55,14 @@ def real_loop(prog, td, i, o):
     """the property's oracle: stack of the function applied to every slice"""
     with time_limit(30):
         r = td.batch_dims
+        if td.batch_size[i % r] == 0:
+            # empty vmapped dimension: structure from a size-1 stand-in, then the stacked dimension is emptied
+            b1 = list(td.batch_size)
+            b1[i % r] = 1
+            stand = G.make_td(b1, list(td.names) if td._has_names() else None)
+            one = real_loop(prog, stand, i, o)
+            pos = o if o >= 0 else o + one.batch_dims
+            return one[(slice(None),) * pos + (slice(0, 0),)]
         outs = [G.run_real(prog, s) for s in td.unbind(i % r)]
         rank_out = outs[0].batch_dims if hasattr(outs[0], "batch_dims") else outs[0].dim()
         if not (-(rank_out + 1) <= o <= rank_out):
@@ -84,6 +92,12 @@ def main():
         "torch.stack / unbind on tensordicts as the oracle's reference (the per-sample loop itself runs on the real library)",
     ]
     run.assumptions += ["per-sample semantics of batched tensors (functorch) is assumed, not proved; module calls, tuple outputs, None in_dims, lazy stacks are covered by the oracle stream only"]
+    import c07_gen
+    import gen_tables
+    try:
+        gen_tables.write_if_changed("C19Shapes.lean", c07_gen.gen_c19_shapes())
+    except Exception as e:
+        run.proof_broken.append(f"generator:C19Shapes:{type(e).__name__}:{e}")
     run.build_and_audit(["TdVerif.Props.C19"])
     if run.tier == "thorough":
         run.leanchecker(["TdVerif.Props.C19", "TdVerif.Lemmas.C19Vmap", "TdVerif.Model.C19Vmap", "TdVerif.Model.C19Ops"])
@@ -170,6 +184,22 @@ def main():
         for i in range(-r, r):
             for o in range(-r, r):          # identity program: per-sample rank r-1, out in [-(r), r-1]
                 cases.append((b, None, i, o, [], False))
+    # vmapped (or other) dimensions of size 0: there is no sample, stack([]) is undefined; the expectation is the empty stack
+    # with the structure of the per-sample output (taken from a size-1 stand-in)
+    for b0 in [(0,), (0, 3), (2, 0), (0, 0), (2, 0, 3), (0, 2, 2)]:
+        r0 = len(b0)
+        for i in range(-r0, r0):
+            for o in range(-r0, r0):
+                cases.append((b0, None, i, o, [], False))
+        for _ in range(6 if quick else 40):
+            i = rng.randrange(-r0, r0)
+            inner = list(b0[:i % r0] + b0[i % r0 + 1:])
+            prog, (bo, _) = G.gen_prog(rng, inner, G.KEYS, depth=0, maxlen=3, allow_vmap=False)
+            # functorch itself fails on arithmetic with an empty batch of 0-d samples (torch.vmap(lambda x: x * 2)(torch.zeros(0))
+            # raises IndexError without any tensordict): size-0 programs stay with shape / key operations
+            if any(op[0] in ("mul2", "add1", "neg", "sum0", "setmul3", "setconst", "cat_self") for op in prog):
+                continue
+            cases.append((b0, None, i, rng.randrange(-(len(bo) + 1), len(bo) + 1), prog, False))
     nrand = 3000 if quick else 30000
     for _ in range(nrand):
         b = rng.choice(BATCHES)
@@ -179,7 +209,7 @@ def main():
             names[rng.randrange(r)] = None
         i = rng.randrange(-r, r)
         inner = list(b[:i % r] + b[i % r + 1:])
-        prog, (bo, _) = G.gen_prog(rng, inner, G.KEYS, depth=1)
+        prog, (bo, _) = G.gen_prog(rng, inner, G.KEYS, depth=2 if rng.random() < 0.25 else 1)
         ro = len(bo)
         o = rng.randrange(-(ro + 1), ro + 1)
         cases.append((b, names, i, o, prog, rng.random() < 0.3))
@@ -194,7 +224,18 @@ def main():
     for (b, names, i, o, prog, locked) in cases:
         td = G.make_td(b, names, locked=locked)
         case = {"batch": list(b), "names": names, "in_dim": i, "out_dim": o, "prog": G.sx_prog(prog), "locked": locked}
-        got = attempt(lambda: real_vmap(prog, td, i, o))
+        empty_batch_limit = []
+        def vm():
+            try:
+                return real_vmap(prog, td, i, o)
+            except IndexError as e:
+                if 0 in b and "select(): index 0 out of range" in str(e):
+                    empty_batch_limit.append(1)     # functorch's own fallback on an empty batch (reproducible on plain tensors)
+                raise
+        got = attempt(vm)
+        if empty_batch_limit:
+            run.count("vmap.outcome", "functorch-empty-batch-limit")
+            continue
         ref = attempt(lambda: real_loop(prog, G.make_td(b, names), i, o)) if -len(b) <= i < len(b) else ["err"]
         run.case(("vmap", str(case)), nontrivial=got[0] == "ok" and (bool(prog) or i != o))
         run.count("vmap.rank", len(b))
@@ -214,7 +255,7 @@ def main():
         else:
             run.oracle_ok("vmap_vs_loop")
         reqs.append(sx("c19.vmap", td_sx(b, names), i, o, G.sx_prog(prog)))
-        if -len(b) <= i < len(b) and ref[0] == "ok":
+        if -len(b) <= i < len(b) and ref[0] == "ok" and b[i % len(b)] > 0:      # the spec side stack([]) is undefined for an empty vmapped dim
             rank_out = len(ref[1]) - 1 - 1
             reqs_loop.append((len(reqs) - 1, sx("c19.loop", td_sx(b, names), i % len(b), o if o >= 0 else o + rank_out + 1, G.sx_prog(prog))))
         impl.append(got)
@@ -317,6 +358,69 @@ def main():
         else:
             model = ["err"]
         run.corr("vmap_tuple(code path)", case, got, model)
+
+
+    # ------------------------------------------------------------------ 3e. functional module calls through to_module with batched parameter tensordicts
+    from tensordict import TensorDict
+    reqs, impl, meta = [], [], []
+    combos = [(B, nout, nin, pin, xin, o) for B in (1, 2, 3) for nout in (1, 2) for nin in (1, 3) for pin in (0, -1, None)
+              for xin in (None, 0, 1, -1, -2) for o in (0, 1, -1, -2) if not (pin is None and xin is None)]
+    if quick:
+        combos = rng.sample(combos, 160)
+    for (B, nout, nin, pin, xin, o) in combos:
+        net = torch.nn.Linear(nin, nout).double()
+        own = [net.weight, net.bias]
+        if pin is None:
+            params = TensorDict({"weight": torch.arange(1, 1 + nout * nin, dtype=torch.float64).reshape(nout, nin),
+                                 "bias": torch.arange(100, 100 + nout, dtype=torch.float64)}, batch_size=[])
+        else:
+            params = TensorDict({"weight": torch.arange(1, 1 + B * nout * nin, dtype=torch.float64).reshape(B, nout, nin),
+                                 "bias": torch.arange(100, 100 + B * nout, dtype=torch.float64).reshape(B, nout)}, batch_size=[B])
+        if rng.random() < 0.4:
+            params.lock_()
+        xshape = (nin,) if xin is None else ((B, nin) if xin in (0, -2) else (nin, B))
+        n = 1
+        for d in xshape:
+            n *= d
+        x = torch.arange(1000, 1000 + n, dtype=torch.float64).reshape(xshape)
+        def call(p, xx, net=net):
+            with p.to_module(net):
+                return net(xx)
+        case = {"B": B, "out": nout, "in": nin, "params_in_dim": pin, "x_in_dim": xin, "out_dim": o, "locked": params.is_locked}
+        def go():
+            with time_limit(30):
+                r = torch.vmap(call, in_dims=(pin, xin), out_dims=o)(params, x)
+            return [list(r.shape), [int(v) for v in r.reshape(-1).tolist()]]
+        try:
+            got = go()
+        except TimeoutError:
+            raise
+        except Exception as e:
+            got = ["err"]
+        def ref_fn():
+            outs = [call(params if pin is None else params[k], x if xin is None else x.select(xin, k)) for k in range(B)]
+            if not (-2 <= o <= 1):
+                raise IndexError("out_dim")
+            r = torch.stack(outs, o if o >= 0 else o + 2)
+            return [list(r.shape), [int(v) for v in r.reshape(-1).tolist()]]
+        try:
+            ref = ref_fn()
+        except Exception:
+            ref = ["err"]
+        run.case(("vmap_linear", str(case)), nontrivial=got[0] != "err")
+        run.count("module.outcome", "ok" if got[0] != "err" else "err")
+        if got != ref:
+            run.oracle_fail("module_vs_loop", case, f"vmap={str(got)[:150]} loop={str(ref)[:150]}", fingerprint="module")
+        elif net.weight is not own[0] or net.bias is not own[1] or not isinstance(net.weight, torch.nn.Parameter):
+            run.oracle_fail("module_vs_loop", case, "the module was not left with its own parameters after the vmapped functional call", fingerprint="module_restore")
+        else:
+            run.oracle_ok("module_vs_loop")
+        reqs.append(sx("c19.vmap_linear", B, nout, nin, pin, xin, o))
+        impl.append(got)
+        meta.append(case)
+    for case, got, a in zip(meta, impl, ask_chunked(drv, reqs)):
+        a = parse_sx(a)
+        run.corr("vmap_linear(to_module)", case, got, a if a[0] != "err" else ["err"])
 
     # ------------------------------------------------------------------ 3b. lazily stacked tensordicts: the lazy code path of the model vs the real library
     lz_cases = []
